@@ -9,8 +9,33 @@ use std::cell::RefCell;
 use std::io::{self, BufRead, ErrorKind, Read, Write};
 use std::rc::Rc;
 
-pub const KINDS: [ErrorKind; 5] =
-    [ErrorKind::Other, ErrorKind::UnexpectedEof, ErrorKind::PermissionDenied, ErrorKind::TimedOut, ErrorKind::WouldBlock];
+/// Non-transient error kinds a device may report. The first five are the ones named by the property; the others are
+/// what real readers and sinks also return (pipes, sockets, full or read-only file systems, quotas).
+pub const KINDS: [ErrorKind; 20] = [
+    ErrorKind::Other,
+    ErrorKind::UnexpectedEof,
+    ErrorKind::PermissionDenied,
+    ErrorKind::TimedOut,
+    ErrorKind::WouldBlock,
+    ErrorKind::BrokenPipe,
+    ErrorKind::NotFound,
+    ErrorKind::ConnectionReset,
+    ErrorKind::ConnectionAborted,
+    ErrorKind::InvalidData,
+    ErrorKind::InvalidInput,
+    ErrorKind::WriteZero,
+    ErrorKind::StorageFull,
+    ErrorKind::Unsupported,
+    ErrorKind::OutOfMemory,
+    ErrorKind::NotConnected,
+    ErrorKind::AlreadyExists,
+    ErrorKind::QuotaExceeded,
+    ErrorKind::FileTooLarge,
+    ErrorKind::ResourceBusy,
+];
+pub fn kind_of(i: i64) -> ErrorKind {
+    KINDS[i.rem_euclid(KINDS.len() as i64) as usize]
+}
 
 pub fn kind_name(k: ErrorKind) -> &'static str {
     match k {
@@ -23,6 +48,18 @@ pub fn kind_name(k: ErrorKind) -> &'static str {
         ErrorKind::Interrupted => "Interrupted",
         ErrorKind::InvalidData => "InvalidData",
         ErrorKind::NotFound => "NotFound",
+        ErrorKind::BrokenPipe => "BrokenPipe",
+        ErrorKind::ConnectionReset => "ConnectionReset",
+        ErrorKind::ConnectionAborted => "ConnectionAborted",
+        ErrorKind::InvalidInput => "InvalidInput",
+        ErrorKind::StorageFull => "StorageFull",
+        ErrorKind::Unsupported => "Unsupported",
+        ErrorKind::OutOfMemory => "OutOfMemory",
+        ErrorKind::NotConnected => "NotConnected",
+        ErrorKind::AlreadyExists => "AlreadyExists",
+        ErrorKind::QuotaExceeded => "QuotaExceeded",
+        ErrorKind::FileTooLarge => "FileTooLarge",
+        ErrorKind::ResourceBusy => "ResourceBusy",
         _ => "other-kind",
     }
 }
@@ -227,6 +264,9 @@ pub struct SinkState {
     pub short_writes: u64,
     pub fault_fired_at: Option<usize>,
     pub budget_exceeded: bool,
+    /// flush calls answered with Interrupted (not counted in errors_raised)
+    pub flush_interrupted: u64,
+    pub last_flush_failed: bool,
 }
 
 pub struct SimWriter {
@@ -238,6 +278,8 @@ pub struct SimWriter {
     pub fault: Option<(usize, WriteFaultKind, bool)>, // (output offset, what, sticky)
     pub fired: u64,
     pub flush_err: Option<ErrorKind>,
+    /// only the first flush call fails
+    pub flush_once: bool,
     pub budget: u64,
 }
 
@@ -245,7 +287,7 @@ impl SimWriter {
     pub fn new(accept: Vec<u32>, eintr: Vec<u32>, fault: Option<(usize, WriteFaultKind, bool)>, flush_err: Option<ErrorKind>, expect_len: usize) -> (SimWriter, Rc<RefCell<SinkState>>) {
         let st = Rc::new(RefCell::new(SinkState::default()));
         let budget = 256 + 4 * expect_len as u64 + 4 * eintr.len() as u64;
-        (SimWriter { st: st.clone(), accept, ai: 0, eintr, fault, fired: 0, flush_err, budget }, st)
+        (SimWriter { st: st.clone(), accept, ai: 0, eintr, fault, fired: 0, flush_err, flush_once: false, budget }, st)
     }
 }
 
@@ -302,10 +344,24 @@ impl Write for SimWriter {
     fn flush(&mut self) -> io::Result<()> {
         let mut st = self.st.borrow_mut();
         st.flush_calls += 1;
-        if let Some(k) = self.flush_err {
+        if st.flush_calls > 10_000 {
+            st.budget_exceeded = true;
             st.errors_raised += 1;
-            return Err(io::Error::new(k, Injected(1000 + st.flush_calls)));
+            st.last_flush_failed = true;
+            return Err(io::Error::new(ErrorKind::Other, "simulator: flush budget exceeded (livelock)"));
         }
+        if let Some(k) = self.flush_err {
+            if !self.flush_once || st.flush_calls == 1 {
+                if k == ErrorKind::Interrupted {
+                    st.flush_interrupted += 1;
+                } else {
+                    st.errors_raised += 1;
+                }
+                st.last_flush_failed = true;
+                return Err(io::Error::new(k, Injected(1000 + st.flush_calls)));
+            }
+        }
+        st.last_flush_failed = false;
         Ok(())
     }
 }
